@@ -708,16 +708,22 @@ func (e *Exec) queryModel(q *Term) ([]Draw, SatResult) {
 	defer e.solver.Pop()
 	e.solver.Assert(q)
 	r := e.solver.Check()
+	var m map[string]*big.Int
+	if r == Unknown {
+		r, m = e.portfolio(q)
+	}
 	if r != Sat {
 		return nil, r
 	}
-	var vars []*Term
-	for _, d := range e.draws {
-		if d.term != nil && !d.term.IsConst() {
-			vars = append(vars, d.term)
+	if m == nil {
+		var vars []*Term
+		for _, d := range e.draws {
+			if d.term != nil && !d.term.IsConst() {
+				vars = append(vars, d.term)
+			}
 		}
+		m = e.solver.GetValues(vars)
 	}
-	m := e.solver.GetValues(vars)
 	out := make([]Draw, len(e.draws))
 	for i, d := range e.draws {
 		out[i] = d
